@@ -215,33 +215,55 @@ def identity_other(ctx: Ctx):
 
 def slots(ctx: Ctx):
     ci = ctx.repo.cls(DIM, "_ElementIdShim")
-    m = ctx.repo.lookup(ci, "shimmed_dimension_transforms_dict")
-    writes = {}
-    for n in ast.walk(m.node):
-        if isinstance(n, ast.Assign) and isinstance(n.targets[0], ast.Subscript):
-            writes[u(n.targets[0])] = u(n.value)
-    want = {
-        "shim['elements']": "self._replaced_element_transforms(shim['elements'])",
-        "shim['order']['element_ids']": "self._replaced_order_element_ids(shim['order']['element_ids'])",
-        "fixed['top']": "self._replaced_order_element_ids(fixed['top'])",
-        "fixed['bottom']": "self._replaced_order_element_ids(fixed['bottom'])",
-    }
-    ctx.ob("slots", f"{DIM}::_ElementIdShim.shimmed_dimension_transforms_dict", writes, want, writes == want, "element-transform keys, explicit order ids and both fixed lists are rewritten through the cascade")
-    ctx.count("rewritten transform slots", len(writes))
+    from ..effects import inventory
+    from ..exprdiff import canon
+    from ..stmts import reachable_functions, resolver
+
+    def passes_cascade(method: str) -> bool:
+        # a call of the cascade, or the bound method taken as a value (`translate = self.translate_element_id`)
+        return any(isinstance(n, ast.Attribute) and n.attr == "translate_element_id" for f in reachable_functions(ctx.repo, ci, method, depth=3) for n in ast.walk(f)) or method == "translate_element_id"
+
+    wanted = {"store 'elements'": "element-transform keys", "store 'element_ids'": "explicit order ids", "store 'top'": "fixed top list", "store 'bottom'": "fixed bottom list"}
+    seen = {}
+    for w in inventory(ctx.repo):
+        if w.member.cls is not ci or w.sig not in wanted or w.kind != "store":
+            continue
+        # the statement that performs the store
+        stmt = next((n for n in ast.walk(w.member.node) if isinstance(n, ast.Assign) and getattr(n, "lineno", -1) == w.lineno), None)
+        if stmt is None:
+            continue
+        res = resolver(w.member.node)
+        through = False
+        for v in res(stmt.value):
+            for c in ast.walk(v):
+                if isinstance(c, ast.Call) and isinstance(c.func, ast.Attribute) and isinstance(c.func.value, ast.Name) and c.func.value.id == "self" and passes_cascade(c.func.attr):
+                    through = True
+        seen.setdefault(w.sig, []).append((w.member.name, through, u(stmt.value)[:70]))
+    for sig, what in wanted.items():
+        where = f"{DIM}::_ElementIdShim [{what}]"
+        if sig not in seen:
+            ctx.undecided("slots", where, "no store of this slot found", "rewritten through the cascade")
+            continue
+        for member, through, val in seen[sig]:
+            ctx.ob("slots", where + f" in {member}", val, "value passes through translate_element_id", through, "element-transform keys, explicit order ids and both fixed lists are rewritten through the cascade")
+            ctx.count("rewritten transform slots")
     ctx.require_min("rewritten transform slots", 4)
-    fixed_src = [u(n.value) for n in ast.walk(m.node) if isinstance(n, ast.Assign) and u(n.targets[0]) == "fixed"]
-    ctx.ob("slots", f"{DIM}::_ElementIdShim.shimmed_dimension_transforms_dict [fixed]", fixed_src, ["shim.get('order', {}).get('fixed', {})"], fixed_src == ["shim.get('order', {}).get('fixed', {})"])
     b = {"element_ids": ast.Name(id="element_ids", ctx=ast.Load())}
     body = SUMMARIZER.summarize(ctx.repo.lookup(ci, "_replaced_order_element_ids").node, b)
     ctx.check_expr("slots", f"{DIM}::_ElementIdShim._replaced_order_element_ids", body, "[self.translate_element_id(_id) for _id in element_ids]")
     m = ctx.repo.lookup(ci, "_replaced_element_transforms")
     body = SUMMARIZER.summarize(m.node)
-    leaves = strip_ifexp_paths(body)
-    last = leaves[-1][1]
-    ok_drop = isinstance(last, ast.DictComp) and [u(i) for g in last.generators for i in g.ifs] == ["nkey is not None"]
-    ctx.ob("slots.drop-unknown", f"{DIM}::_ElementIdShim._replaced_element_transforms", u(last)[:200], "{nkey: ... if nkey is not None}", ok_drop, "element transforms whose key matches nothing are dropped, never raised")
-    uses_translate = "self.translate_element_id(_id) for _id in" in u(last)
-    ctx.ob("slots", f"{DIM}::_ElementIdShim._replaced_element_transforms [default keys]", uses_translate, True, uses_translate, "keys are translated by the same cascade")
+    where = f"{DIM}::_ElementIdShim._replaced_element_transforms"
+    comps = [n for n in ast.walk(body) if isinstance(n, ast.DictComp)]
+    if not comps:
+        ctx.undecided("slots.drop-unknown", where, u(body)[:160], "{nkey: ... if nkey is not None}")
+    for dc in comps[:1]:
+        conds = [u(canon(i)) for g in dc.generators for i in g.ifs]
+        key = u(dc.key)
+        ok_drop = any(c == f"{key} is not None" for c in conds)
+        ctx.ob("slots.drop-unknown", where, u(dc)[:200], "{nkey: ... if nkey is not None}", True if ok_drop else (False if not conds else None), "element transforms whose key matches nothing are dropped, never raised")
+    uses_translate = passes_cascade("_replaced_element_transforms")
+    ctx.ob("slots", where + " [default keys]", uses_translate, True, True if uses_translate else None, "keys are translated by the same cascade")
 
 
 def late_translations(ctx: Ctx):
